@@ -92,6 +92,13 @@ func HarnessC11_links() {
 	p.RequireNoReferrerOnLinks(nr)
 	p.RequireNoReferrerOnFullyQualifiedLinks(nrfq)
 	p.AddTargetBlankToFullyQualifiedLinks(tb)
+	// URL checking may be switched off again afterwards; the hardening is
+	// stated for every emitted link, checked or not
+	parseOff := nondetBool("parseOff")
+	verifNoteBool("parseOff", parseOff)
+	if parseOff {
+		p.RequireParseableURLs(false)
+	}
 	allowGlobally(p, "href", "rel", "target", "other")
 	verifFreeze()
 	el := pickEl("el", "a", "area", "link")
@@ -164,13 +171,29 @@ var sandboxTokens = []string{
 func HarnessC12_forced() {
 	p := &Policy{}
 	p.init()
-	mode := nondetIntRange("mode", 0, 2)
+	// mode 0: crossorigin only; 1: sandbox only; 2: both; 3 and 4: both, with the
+	// sandbox table built entry by entry (empty table / exactly one entry), so
+	// that code looking at the table's size or iterating it sees a real table
+	mode := nondetIntRange("mode", 0, 4)
 	verifNoteInt("mode", mode)
 	if mode != 1 {
 		p.RequireCrossOriginAnonymous(true)
 	}
 	var allowed []bool
-	if mode != 0 {
+	if mode == 3 || mode == 4 {
+		p.requireSandboxOnIFrame = map[string]bool{}
+		idx := -1
+		if mode == 4 {
+			idx = nondetIntRange("sb.idx", 0, len(sandboxTokens)-1)
+		}
+		for j, t := range sandboxTokens {
+			if j == idx {
+				p.requireSandboxOnIFrame[t] = true
+			}
+			verifNoteBool("sb."+t, j == idx)
+			allowed = append(allowed, j == idx)
+		}
+	} else if mode != 0 {
 		// an entry mapped to false behaves like an absent entry for every lookup
 		// the filter makes, so a symbolic value per documented token covers all
 		// subsets without forking
